@@ -137,7 +137,9 @@ def _pin_apdu(p, k):
 # pin_apdus(p, k): the k SEND_PIN APDUs [0x80, 0x41, j, p[j]] for j < k, in order
 pin_apdus = RecSpec("pin_apdus", [BYTES], SEQ_BYTES_SORT,
                     base=lambda p: tm.SeqEmpty(SEQ_BYTES_SORT),
-                    step=lambda p, k, prev: tm.Concat(prev, tm.SeqUnit(_pin_apdu(p, k))))
+                    step=lambda p, k, prev: tm.Concat(prev, tm.SeqUnit(_pin_apdu(p, k))),
+                    # lemma (induction on k): k APDUs
+                    lemma=lambda p, k, t: tm.Eq(tm.Len(t), tm.Ite(tm.Le(k, tm.Int(0)), tm.Int(0), k)))
 
 
 def final_pin_of(pin, prepend_length):
@@ -156,7 +158,7 @@ class SendPin(Contract):
     def inv_log(i, final_pin, g, old):
         return (0 <= i and i <= len(final_pin)
                 and g.log == old.g.log + pin_apdus(final_pin, i)
-                and g.nx == old.g.nx + i
+                and g.nx == old.g.nx + i and len(g.resps) == len(old.g.resps) + i and prefix_of(old.g.resps, g.resps)
                 and g.cnt == upd(old.g.cnt, CMD_SEND_PIN, sel(old.g.cnt, CMD_SEND_PIN) + i)
                 and g.conn == old.g.conn and g.disc == old.g.disc)
     def inv_final(final_pin, pin, prepend_length): return final_pin == final_pin_of(pin, prepend_length)
@@ -167,6 +169,7 @@ class SendPin(Contract):
     def all_sent(pin, prepend_length, g, old):
         fp = final_pin_of(pin, prepend_length)
         return (g.log == old.g.log + pin_apdus(fp, len(fp)) and g.nx == old.g.nx + len(fp)
+                and len(g.resps) == len(old.g.resps) + len(fp) and prefix_of(old.g.resps, g.resps)
                 and g.cnt == upd(old.g.cnt, CMD_SEND_PIN, sel(old.g.cnt, CMD_SEND_PIN) + len(fp))
                 and g.conn == old.g.conn and g.disc == old.g.disc)
     ensures = [all_sent]
@@ -176,6 +179,7 @@ class SendPin(Contract):
         fp = final_pin_of(pin, prepend_length)
         n = g.nx - old.g.nx
         return (1 <= n and n <= len(fp) and g.log == old.g.log + pin_apdus(fp, n)
+                and len(g.resps) == len(old.g.resps) + n and prefix_of(old.g.resps, g.resps)
                 and g.cnt == upd(old.g.cnt, CMD_SEND_PIN, sel(old.g.cnt, CMD_SEND_PIN) + n)
                 and g.conn == old.g.conn and g.disc == old.g.disc)
     raises = PROPAGATE(only_pin_so_far)
@@ -193,15 +197,17 @@ class Unlock(Contract):
 
     def unlock_sent_once(pin, g, old):
         return (g.log == old.g.log + pin_apdus(pin, len(pin)) + [apdu_of(CMD_UNLOCK, bytes([0, 0]))]
-                and sel(g.cnt, CMD_UNLOCK) == sel(old.g.cnt, CMD_UNLOCK) + 1
-                and sel(g.cnt, CMD_SEND_PIN) == sel(old.g.cnt, CMD_SEND_PIN) + len(pin)
+                and g.cnt == upd(upd(old.g.cnt, CMD_SEND_PIN, sel(old.g.cnt, CMD_SEND_PIN) + len(pin)),
+                                 CMD_UNLOCK, sel(old.g.cnt, CMD_UNLOCK) + 1)
+                and g.nx == old.g.nx + len(pin) + 1 and monotone(g, old)
                 and g.conn == old.g.conn and g.disc == old.g.disc)
     def accepted_iff_nonzero(result, g): return ok(g) and result == (g.last_resp[2] != 0)
     ensures = [unlock_sent_once, accepted_iff_nonzero]
 
     def at_most_one_unlock(g, old):
         return (sel(g.cnt, CMD_UNLOCK) <= sel(old.g.cnt, CMD_UNLOCK) + 1
-                and g.conn == old.g.conn and g.disc == old.g.disc)
+                and sel(g.cnt, CMD_CHANGE_PIN) == sel(old.g.cnt, CMD_CHANGE_PIN)
+                and g.conn == old.g.conn and g.disc == old.g.disc and monotone(g, old))
     raises = PROPAGATE(at_most_one_unlock)
 
 
@@ -218,7 +224,8 @@ class NewPin(Contract):
     def sequence(pin, g, old):
         fp = bytes([len(pin)]) + pin
         n = g.nx - old.g.nx
-        return (1 <= n and n <= len(fp) + 1
+        return (1 <= n and n <= len(fp) + 1 and monotone(g, old) and g.conn == old.g.conn and g.disc == old.g.disc
+                and sel(g.cnt, CMD_UNLOCK) == sel(old.g.cnt, CMD_UNLOCK)
                 and (g.log == old.g.log + pin_apdus(fp, n)
                      or (n == len(fp) + 1 and g.log == old.g.log + pin_apdus(fp, len(fp)) + [apdu_of(CMD_CHANGE_PIN, b"")])))
     def true_means_acknowledged(result, pin, g, old):
